@@ -230,6 +230,18 @@ def gen_plan(rng):
         srv_kinds = ['cb'] + srv_kinds[1:]
         fault = {'kind': 'none'}
 
+    if rng.chance(4):
+        # the call that opens a session is cancelled while the server's
+        # first words (EOF, data) are on their way; then the connection
+        # is closed: a session that never started is told nothing but that
+        chans[:] = [{'kind': 'cb', 'req': rng.choice(['exec', 'shell']),
+                     'c': [], 's': rng.choice([[['eof']], [['w', 5], ['eof']],
+                                               [['w', 5]]]),
+                     'start_delay': 0, 'via': rng.choice(['conn', 'string']),
+                     'inner_up': True}]
+        srv_kinds = ['cb'] + srv_kinds[1:]
+        fault = {'kind': 'cancel', 'chan': 0, 'after': rng.below(8)}
+
     if rng.chance(6):
         # SFTP requests in flight on one channel while the application's
         # callback on another channel of the same connection raises
@@ -958,6 +970,12 @@ def check_grammar(world, name, log):
 
 
 def run_plan(plan, sched_seed=None, sched_replay=None):
+    # what an earlier run of this process wrote over SFTP must not show up
+    # in this run's directory listings (one seed = one execution)
+    for fn in os.listdir(sandbox()):
+        if fn.startswith('w') and fn.endswith('.tmp'):
+            os.unlink(os.path.join(sandbox(), fn))
+
     world = World(plan, sched_seed, sched_replay)
     run = Run(world, plan)
     sim = world.sim
